@@ -6,6 +6,7 @@ package graphql
 // the build tag `verif`; see verif_off.go for the no-op twins.
 
 import (
+	"reflect"
 	"sync/atomic"
 
 	"github.com/graphql-go/graphql/language/ast"
@@ -74,3 +75,39 @@ func (p *Plan) VerifAbstractLocked() bool {
 	}
 	return true
 }
+
+// verifLockMode reports how the lock *mu is held at the moment of the call, as seen
+// from inside a critical section: "x" exclusively, "s" only by readers of a
+// reader/writer lock, "n" not at all.  It works for any lock type with TryLock/Unlock
+// and, optionally, TryRLock/RUnlock.
+func verifLockMode(mu interface{}) string {
+	type tryLocker interface {
+		TryLock() bool
+		Unlock()
+	}
+	type tryRLocker interface {
+		TryRLock() bool
+		RUnlock()
+	}
+	if l, ok := mu.(tryLocker); ok {
+		if l.TryLock() {
+			l.Unlock()
+			return "n"
+		}
+	} else {
+		panic("verif: lock type " + reflect.TypeOf(mu).String() + " has no TryLock")
+	}
+	if l, ok := mu.(tryRLocker); ok {
+		if l.TryRLock() {
+			l.RUnlock()
+			return "s"
+		}
+	}
+	return "x"
+}
+
+// VerifLockMode reports how the cache's lock is held ("x", "s" or "n").
+func (c *PlanCache) VerifLockMode() string { return verifLockMode(&c.mu) }
+
+// VerifAbstractLockMode is the same for a plan's lazy-planning lock.
+func (p *Plan) VerifAbstractLockMode() string { return verifLockMode(&p.abstractMu) }
